@@ -1096,3 +1096,60 @@ func ZZHarnessRCAfterRoundChange() {
 	}
 	zzReach("end")
 }
+
+// ZZHarnessCommitAfterEarlierPrepare (C07): an operator that reached a prepare quorum in round 1 (and committed)
+// must still commit when a later round prepares: round 1 does not decide, the operator - leader of round 2 - times
+// out, collects the round-change quorum (its own prepared round-change arriving last), re-proposes the locked value,
+// and receives a prepare quorum for round 2: a commit for round 2 is broadcast.
+func ZZHarnessCommitAfterEarlierPrepare() {
+	n := int(zzParam("N"))
+	height := specqbft.Height(zzNondetRange("iheight", 0, uint64(n)))
+	value := []byte{9}
+	share0 := zzShareFor(n, zzCommitteeIDs[n][0])
+	own := zzLeader(share0, height, 2)
+	r := zzNewRig(n, own, height, value)
+	zzAssume(r.valOK)
+	r.prefix(3, value)
+	zzAssume(r.inst.State.LastPreparedRound == 1)
+	zzAssume(r.inst.UponRoundTimeout(r.lg) == nil)
+	ownRC := r.net.msgs[len(r.net.msgs)-1]
+	zzAssume(ownRC != nil && ownRC.Message.MsgType == specqbft.RoundChangeMsgType)
+	oth := r.others()
+	q := int(r.share.Quorum)
+	for k := 0; k < q-1; k++ {
+		_, _, _, err := r.inst.ProcessMsg(r.lg, zzHonest(oth[k], r.msg(specqbft.RoundChangeMsgType, 2, [32]byte{}), nil))
+		zzAssume(err == nil)
+	}
+	before := len(r.net.msgs)
+	_, _, _, err := r.inst.ProcessMsg(r.lg, zzCopyMsg(ownRC))
+	zzAssume(err == nil)
+	var prop *specqbft.SignedMessage
+	for _, b := range r.net.msgs[before:] {
+		if b != nil && b.Message.MsgType == specqbft.ProposalMsgType && b.Message.Round == 2 {
+			prop = b
+		}
+	}
+	zzAssume(prop != nil) // (that the leader proposes here is the subject of rc-progress)
+	_, _, _, err = r.inst.ProcessMsg(r.lg, zzCopyMsg(prop))
+	zzAssume(err == nil && r.inst.State.ProposalAcceptedForCurrentRound != nil)
+	zzReach("round-2-proposal-accepted")
+	root, _ := zzHashDataRoot(value)
+	before = len(r.net.msgs)
+	for k := 0; k < q; k++ {
+		_, _, _, perr := r.inst.ProcessMsg(r.lg, zzHonest(oth[k%len(oth)], r.msg(specqbft.PrepareMsgType, 2, root), nil))
+		_ = perr
+		if k == q-2 {
+			// the own prepare comes back as well
+			_, _, _, _ = r.inst.ProcessMsg(r.lg, zzHonest(own, r.msg(specqbft.PrepareMsgType, 2, root), nil))
+		}
+	}
+	committed := false
+	for _, b := range r.net.msgs[before:] {
+		if b != nil && b.Message.MsgType == specqbft.CommitMsgType && b.Message.Round == 2 && b.Message.Root == root {
+			committed = true
+		}
+	}
+	zzAssert(committed, "prepare-quorum-in-a-later-round-leads-to-a-commit-also-after-an-earlier-prepare")
+	zzAssert(r.inst.State.LastPreparedRound == 2, "later-prepare-quorum-refreshes-the-prepared-round")
+	zzReach("end")
+}
